@@ -90,7 +90,7 @@ contract(B + "_select_tag_expression_parser4auto", props=["C08", "C07"], params=
 
 # ---------------------------------------------------------------------------------------
 # v1 expression objects: conjunction of disjunctions of possibly negated tags (C08)
-shape("TagExpression", ands="seq:seq:str", limits="dict")
+shape("TagExpression", ands="seq:seq:str", limits="dict:int")
 # a stored literal x is true for the element's tags iff  x = "-t" and t is absent, or x = "t" and t is present
 macro("v1_has", ["tags", "t"], "exists(lambda k: 0 <= k < len(tags) and tags[k] == t)")
 macro("v1_lit", ["x", "tags"], "ite(str_startswith(x, '-'), not v1_has(tags, x[1:]), v1_has(tags, x))")
